@@ -20,7 +20,7 @@ from harness import text as T
 from harness import textcheck as TC
 from props import _text as X
 
-PROPS = ["Octave.Props.C07", "Octave.Props.C07receipts", "Octave.Props.C01flat", "Octave.Props.C03expr", "Octave.Props.C01sections", "Octave.Props.C01unified", "Octave.Props.C07multiword", "Octave.Props.C07brace", "Octave.Props.C07braceall", "Octave.Props.C07mwnum"]
+PROPS = ["Octave.Props.C07", "Octave.Props.C07receipts", "Octave.Props.C01flat", "Octave.Props.C03expr", "Octave.Props.C01sections", "Octave.Props.C01unified", "Octave.Props.C07multiword", "Octave.Props.C07brace", "Octave.Props.C07braceall", "Octave.Props.C07mwnum", "Octave.Props.C07mwbool", "Octave.Props.C07mwfloat"]
 def kf_strict_write_parser_rewrites(case) -> bool:
     """C07N1: entry point octave_write with lenient=false AND the input contains a parser-level rewrite
     (multi-word coalescing): strict parse() returns no warnings, so corrections cannot list it."""
